@@ -114,6 +114,7 @@ class Interp:
         self.fx, self.f, self.default_op, self.ctor_eval = fx, func, default_op, ctor_eval
         self.steps = 0
         self.value_mode = value_mode      # arguments are terms of an uninterpreted value sort, not Booleans
+        self.oracle = {}                  # method name -> function(interp, argument values, call node): answers for calls outside the constructor algebra
 
     order = {'x': 0, 'y': 1, 'z': 2}
 
@@ -274,13 +275,15 @@ class Interp:
                 return UNDEF
             if n.endswith('PtAsgn_Undef'):
                 return ('asgn', UNDEF, 2)
+            if e.get('d') == 'enum':
+                return ('enum', n.split('::')[-1])
             raise Unmodelled('unknown name %s at line %s' % (n, e.get('ln')))
         if k == 'mem' and see_through(e['b']).get('k') == 'this':
             if e['n'] in ('term_TRUE', 'term_FALSE'):
                 return T if e['n'] == 'term_TRUE' else F
             if e['n'].startswith('sortTo'):
                 return ('symmap',)          # sort -> symbol of this constructor's operator
-            raise Unmodelled('member %s' % e['n'])
+            return ('member', e['n'])       # opaque: only passed on to calls that are answered by an oracle
         if k == 'mem':
             b = self.val(e['b'])
             if isinstance(b, tuple) and b and b[0] == 'asgn' and e['n'] in ('tr', 'sgn'):
@@ -480,6 +483,10 @@ class Interp:
             return self.ctor_eval[m](vals)
         if e.get('op') == '[]' or m == 'operator[]':
             pass
+        if m in self.oracle:
+            return self.oracle[m](self, [self.val(x) for x in args], e)
+        if m == 'empty' and e.get('recv') is not None and isinstance(self.val(e['recv']), list):
+            return len(self.val(e['recv'])) == 0
         # map lookups such as sortToIte[sr] / sortToEquality[sref]: the symbol of this constructor
         if m == 'operator[]' or (e.get('recv') is not None and 'sortTo' in (path_of(e['recv']) or '')):
             return ('sym', self.default_op)
